@@ -139,6 +139,43 @@ def run_case(direction, body_len, chunk, corrupt_block, corrupt_offset, fails, t
             H.shutdown(p, c)
 
 
+def run_retry(direction, body_len, chunk, corrupt_block, fails):
+    """A multi-block message whose block `corrupt_block` (not the first) arrives corrupted: the send fails; the application
+    sends the SAME message (same system bytes) again on the now clean line: success must mean delivered once, identical."""
+    d = "ab" if direction == "host->eq" else "ba"
+    host, eq, hlog, elog, line, conns = pair(chunk, (d, corrupt_block, 20))
+    try:
+        sender, rlog = (host, elog) if direction == "host->eq" else (eq, hlog)
+        text = "".join(chr(65 + (i * 11) % 26) for i in range(body_len))
+        fn = sender._settings.streams_functions.function(10, 3)({"TID": 1, "TEXT": text})
+        body = fn.encode()
+        msg = sender._create_message_for_function(fn, 0x0A0B0C01)
+        results = []
+        for _ in range(2):
+            box = {}
+            t = threading.Thread(target=lambda: box.setdefault("r", sender.send_message(msg)), daemon=True)
+            t.start()
+            t.join(8.0 * H.scale())
+            if t.is_alive():
+                fails.add("send-returns", {"direction": direction, "history": "failed send, then the same message again"}, "the send call did not return within 8 s")
+                return
+            results.append(box.get("r"))
+            time.sleep(0.05)
+        H.wait_until(lambda: len(rlog["message_received"]) >= 1, 0.6)
+        got = rlog["message_received"]
+        w = {"direction": direction, "body_bytes": len(body), "chunk": chunk, "corrupt_block_of_first_attempt": corrupt_block, "send_results": results,
+             "delivered": [(g[1], g[2], len(g[4])) for g in got]}
+        if results[0] is not False:
+            fails.add("corrupted-block.sender-reports-failure", w, "a block arrived with a wrong checksum but the send call did not report failure")
+        if results[1] is True and (len(got) != 1 or got[0][4] != body):
+            fails.add("success-means-delivered-once-intact", w, "the same message sent again after a failed attempt reported success but was not delivered exactly once with identical body "
+                      "(blocks of the failed attempt were kept by the receiver)")
+    finally:
+        line.close()
+        for p, c in zip((host, eq), conns):
+            H.shutdown(p, c)
+
+
 @bounded("C17", "line-protocol")
 def bnd_line(tier, seed):
     rnd = random.Random(seed + 17)
@@ -165,6 +202,12 @@ def bnd_line(tier, seed):
                     n_eval += 1
                     distinct.add((direction, size, 64, blk, off))
                     run_case(direction, size, 64, blk, off, fails, {})
+    # histories: a failed multi-block send followed by the same message again (D36)
+    for direction in ("host->eq", "eq->host"):
+        for size, blk in ((480, 1), (700, 1), (700, 2)) if tier == "quick" else ((300, 1), (480, 1), (700, 1), (700, 2), (1500, 3), (1500, 6)):
+            n_eval += 1
+            distinct.add((direction, size, 64, blk, "retry"))
+            run_retry(direction, size, 64, blk, fails)
     return {"evaluations": n_eval, "distinct": len(distinct), "failures": list(fails),
             "scope": f"two real SecsIProtocol endpoints on a simulated line: body sizes {sizes} (1..7 blocks), both directions, line chunk sizes {chunks}, single corrupted byte in the first / middle / last block at header, data and checksum positions",
             "rule": "distinct = (direction, body size, chunk size, corrupted block, offset)", "samples": [{"direction": "host->eq", "size": 700, "chunk": 3}]}
